@@ -159,6 +159,24 @@ INFO = {
  ('8','C18','m2'): ("the error callback keeps the err write guard (if-let temporary) while it takes the waker lock: a poll racing the failure", []),
  ('8','C19','m1'): ("the error path sets the terminal flag but no longer arbitrates on it: a completion accepted first, then an error already past the liveness check", ['C01']),
  ('8','C19','m2'): ("fn_next no longer reads the terminal flag and Subject::complete notifies before it clears its map: next on another thread while the subject is still telling the second subscriber", ['C01', 'C12']),
+ ('9','C03','m1'): ("sample clears its latch after the delivery (duplicate of C03-m9)", []),
+ ('9','C03','m2'): ("sequence_equal emits the verdict and only then tears the upstream down (sink_complete_force): the subscriber ends or feeds both hot sources on receiving the verdict - a second, contradicting verdict", ['C06']),
+ ('9','C04','m1'): ("Subject::error clears its observers after notifying them (duplicate of C04-m13)", []),
+ ('9','C04','m2'): ("RxError::from_error / from_result return an RxError payload unchanged instead of wrapping it: a source raises an error whose payload type is RxError itself", []),
+ ('9','C05','m1'): ("Observer::error no longer consumes its slot: after an error terminal is_subscribed() stays true (subscriber directly on the source)", ['C06']),
+ ('9','C06','m1'): ("switch_on_next retires the source by sink_complete instead of unsubscribing it: subscribe, target emits, source emits once more, then unsubscribe - the source stays subscribed (delivered as C05/m2)", ['C05']),
+ ('9','C08','m1'): ("post reads the abort flag and keeps that guard while it takes the queue mutex (AB-BA with stop): a poster between the two while another thread is inside stop()", ['C07']),
+ ('9','C08','m2'): ("NewThreadScheduler gets a Drop that stops the queue when the last handle goes: post tasks, then drop every handle without abort - the backlog is discarded", []),
+ ('9','C09','m1'): ("a task posted from the worker thread jumps the queue (push_front): a callback on the worker makes the source emit while earlier events are queued", ['C08']),
+ ('9','C09','m2'): ("observe_on skips queued items once the source has failed: a source that ends with an error while earlier items are still undelivered", []),
+ ('9','C10','m1'): ("ReplaySubject drops the explicit release of its inner registration: the subscriber is unsubscribed while it is still being registered (replay(), take_until fired by the synchronous source)", ['C13']),
+ ('9','C10','m2'): ("BehaviorSubject lets a terminal bypass the hand-over queue when it is momentarily empty: queued values are being handed over when complete()/error() arrives", ['C12']),
+ ('9','C12','m1'): ("ReplaySubject reads its stored terminal only after replaying the history: a push followed by a terminal between the history copy and the end of the replay", ['C10']),
+ ('9','C12','m2'): ("BehaviorSubject filters already-seen versions only for buffered values: a push stalled between storing and delivering its value for the subscriber's whole hand-over", ['C10']),
+ ('9','C13','m1'): ("ref_count's hooks hold the connection slot only weakly: take observable(), drop the RefCount handle, then the last subscriber leaves - the source is not unsubscribed", ['C06']),
+ ('9','C13','m2'): ("ReplaySubject relies on the one-shot teardown after the hand-over: the first subscriber of replay() is unsubscribed while it is still being registered", ['C10']),
+ ('9','C14','m1'): ("start coalesces overlapping subscriptions: two threads subscribe the same start(f) value, the second while the first is inside f", []),
+ ('9','C14','m2'): ("amb keeps its decided winner across subscriptions (duplicate of C14-m14)", []),
  ('3','C14','m2'): ("amb's winner cell hoisted out of the per-subscription closure: a second subscription in which a source in a different position signals first", []),
 }
 
